@@ -156,7 +156,7 @@ def run_trace(case, build_pt, num):
     """create_program on an instrumented LoopBuilder"""
     from qupulse.program.loop import LoopBuilder
     singles = []
-    pt = build_pt(case['pt'], singles)
+    pt = build_pt(case['pt'], singles, case.get('share', False))
     env = {k: num(v) for k, v in case['env'].items()}
     mm = case['mm']
     if mm is not None:
@@ -524,7 +524,7 @@ def _update_all(loop, consts):
 
 def run_vol(case, build_pt, num, windows):
     singles = []
-    pt = build_pt(case['pt'], singles)
+    pt = build_pt(case['pt'], singles, case.get('share', False))
     env = {k: num(v) for k, v in case['env'].items()}
     env2 = {k: num(v) for k, v in case['env2'].items()}
     mm = case['mm']
